@@ -245,12 +245,68 @@ func opsString(h []lib.SOp) string {
 	return sb.String()
 }
 
+// probeIOInterfaces: "direct writes are unsafe" through every writing interface of package io that a StringBuilder or a
+// ManualBuffer happens to satisfy (methods can arrive by promotion from an embedded type): whatever the route, bytes
+// that did not come through a Safe* call end up inside an envelope, also right after a safe call.
+func probeIOInterfaces(rep *lib.Report) {
+	const secret = "zq7secret"
+	check := func(what string, out redact.RedactableString) {
+		rep.AddEval(1)
+		if vis := string(lib.DeleteEnvelopes([]byte(out))); strings.Contains(vis, secret) || !lib.WellFormed([]byte(out)) {
+			rep.Violate("writer:io-interface", fmt.Sprintf("%s: the bytes written are outside envelopes (or the result is ill-formed): %q", what, out), map[string]string{"kind": "io-interface", "what": what})
+		}
+	}
+	for _, prime := range []string{"", "safe"} {
+		mk := func() *redact.StringBuilder {
+			var sb redact.StringBuilder
+			if prime != "" {
+				sb.SafeString("s=")
+			}
+			return &sb
+		}
+		{
+			sb := mk()
+			var w interface{} = sb
+			if rf, ok := w.(io.ReaderFrom); ok {
+				_, _ = rf.ReadFrom(io.LimitReader(strings.NewReader(secret), 100))
+				check("io.ReaderFrom after "+prime, sb.RedactableString())
+			}
+		}
+		{
+			sb := mk()
+			_, _ = io.Copy(sb, io.LimitReader(strings.NewReader(secret), 100))
+			check("io.Copy into the builder after "+prime, sb.RedactableString())
+		}
+		{
+			sb := mk()
+			_, _ = io.WriteString(sb, secret)
+			check("io.WriteString after "+prime, sb.RedactableString())
+		}
+		{
+			sb := mk()
+			_, _ = fmt.Fprintf(sb, "%s", secret)
+			check("fmt.Fprintf into the builder after "+prime, sb.RedactableString())
+		}
+		{
+			sb := mk()
+			var w interface{} = sb
+			if bw, ok := w.(io.ByteWriter); ok {
+				for i := 0; i < len(secret); i++ {
+					_ = bw.WriteByte(secret[i])
+				}
+				check("io.ByteWriter after "+prime, sb.RedactableString())
+			}
+		}
+	}
+}
+
 func writerReplay(args []string) {
 	fs := flag.NewFlagSet("writer-replay", flag.ExitOnError)
 	prop := fs.String("prop", "C09", "")
 	fs.Parse(args)
 	rep := lib.NewReport(*prop, "writer-replay")
 	defer installPoolMonitor(rep)()
+	probeIOInterfaces(rep)
 	lib.Parallel(runtime.NumCPU(), func(emit func([]byte)) {
 		_ = lib.TLCLines(os.Stdin, func(raw []byte) { emit(append([]byte(nil), raw...)) })
 	}, func(raw []byte) {
